@@ -28,7 +28,7 @@ def run(ctx):
         assumptions=["the Hencky strain is compared exactly (integers in units of ln 2 / |q|^4, tolerance 1e-9); it is 1/2 log C in both "
                      "settings, as implemented and as required by the power identity (the statement's '1/2 log b in the Eulerian setting' "
                      "contradicts the Miehe-Apel-Lambrecht strategy documented in release-notes-3.1.md: replaced, see the report)",
-                     "strain rates and stress derivatives: fourth-order central differences (step 2^-14) of the real handler instantiated "
+                     "strain rates and stress derivatives: fourth-order central differences (steps 2^-10 and 2^-12, the smaller residual is kept) of the real handler instantiated "
                      "in long double; admissible classes in LogStrain.tla (1e-11 algebraic, 1e-9 differences, documented loss near "
                      "coincident stretches)",
                      "the Abaqus tangent moduli and the array (Abaqus-convention) overloads of the conversions are not explored except "
